@@ -362,7 +362,8 @@ def part_chain(c, n):
             continue
         c.evals += 1
         c.distinct.add((kind, tuple(spec), qn_size, repr(hist)))
-        info["tensors"] = [tl(m.array) for m in obj][:6] if obj.site_num <= 3 and max(obj.bond_dims) <= 3 else "see history (seeded)"
+        info["state"] = dict(tensors=[tl(m.array) for m in obj], qn=[np.asarray(q).tolist() for q in obj.qn], qnidx=obj.qnidx,
+                             qntot=np.asarray(obj.qntot).tolist(), to_right=obj.to_right, coeff=repr(getattr(obj, "coeff", None)))
         if type(loaded) is not cls:
             c.violate(f"{kind}:load:type", dict(info, got=type(loaded).__name__))
             continue
@@ -437,6 +438,7 @@ def part_spill(c, n):
             continue
         info = dict(kind="mps-spilled", sites=spec, qn_size=qn_size, history=hist)
         ref = mps.copy()
+        ref.compress_config = CompressConfig(CompressCriteria.fixed, max_bonddim=8)      # same truncation rule, in memory
         d = tempfile.mkdtemp(dir=c.tmp)
         sp = mps.copy()
         limit = int(rng.choice([0, 1, 40, 100]))
@@ -553,6 +555,9 @@ def part_tree(c, n):
             continue
         c.evals += 1
         c.distinct.add(("ttns", tuple(spec), shape, repr(hist)))
+        info["state"] = dict(tensors=[tl(nd.tensor) for nd in st.node_list], qn=[np.asarray(nd.qn).tolist() for nd in st.node_list],
+                             parent=[None if nd.parent is None else st.node_list.index(nd.parent) for nd in st.node_list],
+                             coeff=repr(st.coeff))
         run.count("roundtrip:ttns:" + shape)
         run.count("roundtrip:ttns:" + ("complex" if np.iscomplexobj(st.root.tensor) else "real"))
         probs = []
@@ -586,7 +591,7 @@ def part_tree(c, n):
         ops = [("expectation", lambda x: np.asarray(x.expectation(ttno))),
                ("canonicalise", lambda x: (x.canonicalise(), obs(x))[1]),
                ("add", lambda x: obs(x.add(st.copy()))),
-               ("evolve", lambda x: tens_obs(x.evolve(ttno, 0.05), ttno)),
+               ("evolve", lambda x: tens_obs(ps_evolve(x, ttno), ttno)),
                ("compress", lambda x: (x.canonicalise(), x.compress(), obs(x))[2]),
                ("apply", lambda x: obs(ttno.apply(x))),
                ("rdm", lambda x: np.concatenate([np.asarray(v).ravel() for v in x.calc_1site_rdm().values()]))]
@@ -595,6 +600,13 @@ def part_tree(c, n):
         for name, f in ops:
             if rng.random() < 0.7:
                 later(c, "ttns", name, f, st, ld, info)
+
+
+def ps_evolve(x, ttno):
+    # the default (TDVP-VMF with an adaptive integrator) can take minutes on rank-deficient random states
+    from renormalizer.utils import EvolveConfig, EvolveMethod
+    x.evolve_config = EvolveConfig(EvolveMethod.tdvp_ps)
+    return x.evolve(ttno, 0.05)
 
 
 def tens_obs(x, ttno):
@@ -844,9 +856,9 @@ def search(run, rng, quick):
         cwd = os.getcwd()
         os.chdir(tmp)            # default dump_matrix_dir is "./": never litter the harness directory
         try:
-            part_chain(c, 60 if quick else 900)
-            part_spill(c, 10 if quick else 120)
-            part_tree(c, 25 if quick else 350)
+            part_chain(c, 250 if quick else 4000)
+            part_spill(c, 30 if quick else 400)
+            part_tree(c, 40 if quick else 600)
             part_crash(c, quick)
         finally:
             os.chdir(cwd)
